@@ -51,7 +51,19 @@ static int sweep() {
       for (const char *pre : {"sopt=", "sopt ", "iopt=1 sopt=", "sopt= "}) { ++n; if (parse_one((std::string(pre) + v).c_str(), false)) return 10; }
     std::vector<std::string> next; for (const std::string &v : cur) for (char c : alpha) next.push_back(v + c); cur.swap(next);
   }
-  printf("ok: %d option texts parsed without memory error or stray exception\n", n); return 0;
+  // queries: 'name=?' followed by the end of the text or any white space leaves every value unchanged and reports no error
+  for (const char *name : {"iopt", "dopt", "sopt"}) for (const char *eq : {"=", " = ", " "}) for (const char *after : {"", " ", "\t", "\n", "\r\n", "\v", "\f", " iopt=5", "\tiopt=5", "\niopt=5"}) {
+    std::string text = std::string("iopt=7 dopt=2.5 sopt=abc ") + name + eq + "?" + after; ++n;
+    TS s; bool threw = false;
+    try { s.ParseOptionString(text.c_str(), mp::BasicSolver::NO_OPTION_ECHO); } catch (const std::exception &) { threw = true; }
+    bool later = strstr(after, "iopt=5") != 0;
+    if (threw || s.has_errors_ || s.i_ != (later ? 5 : 7) || s.d_ != 2.5 || s.s_ != "abc") {
+      std::string show; for (char c : text) { if (c == '\t') show += "\\t"; else if (c == '\n') show += "\\n"; else if (c == '\r') show += "\\r"; else if (c == '\v') show += "\\v"; else if (c == '\f') show += "\\f"; else show += c; }
+      printf("VIOLATED: option text [%s]: a query changed a value or reported an error: iopt=%d dopt=%g sopt=[%s] errors=%d\n", show.c_str(), s.i_, s.d_, s.s_.c_str(), (int)s.has_errors_);
+      return 10;
+    }
+  }
+  printf("ok: %d option texts parsed without memory error or stray exception; queries leave all values unchanged\n", n); return 0;
 }
 int main(int argc, char **argv) {
   if (argc < 2) return 2;
